@@ -27,7 +27,6 @@ from workflows.context.serializers import JsonSerializer
 from workflows.context.state_store import infer_state_type
 from workflows.events import Event, WorkflowIdleEvent
 from workflows.runtime.control_loop import (
-    rebuild_state_from_ticks,
     rebuild_state_from_ticks_stream,
 )
 from workflows.runtime.runtime_decorators import (
@@ -45,6 +44,7 @@ from workflows.runtime.types.plugin import (
 from workflows.runtime.types.ticks import (
     TickIdleRelease,
     WorkflowTick,
+    WorkflowTickAdapter,
 )
 from workflows.workflow import Workflow
 
@@ -307,13 +307,17 @@ class DBOSIdleReleaseDecorator(BaseRuntimeDecorator):
         if workflow is None:
             raise ValueError(f"Workflow {handler.workflow_name} not found")
 
-        # Rebuild BrokerState from persisted ticks
-        init_state = await self._broker_state_from_ticks(workflow, run_id)
-
-        # Include the pending tick in the rebuilt state so the control loop
-        # has it queued before it starts processing.
+        # The pending tick is folded into the initial state below and never
+        # passes through on_tick, so record it in the tick log here: a later
+        # rebuild from the log must see the event whose step results it holds.
         if pending_tick is not None:
-            init_state = rebuild_state_from_ticks(init_state, [pending_tick])
+            await self._store.append_tick(
+                run_id, WorkflowTickAdapter.dump_python(pending_tick, mode="json")
+            )
+
+        # Rebuild BrokerState from persisted ticks (now including the pending
+        # tick, so the control loop has it queued before it starts processing).
+        init_state = await self._broker_state_from_ticks(workflow, run_id)
 
         # Carry over state from old run's state store
         serializer = JsonSerializer()
